@@ -8,10 +8,11 @@ VARIABLE st
 
 KeySets == SUBSET (1..NKeys)
 Signers == {None, Stranger} \cup 1..NKeys
-Commits == {[et |-> e, signer |-> s, altered |-> a] : e \in 1..(MaxT + 1), s \in Signers, a \in BOOLEAN} \
-           {[et |-> e, signer |-> None, altered |-> TRUE] : e \in 1..(MaxT + 1)}
+Shapes == {"ops", "empty"}
+Commits == {[et |-> e, signer |-> s, altered |-> a, shape |-> sh] : e \in 1..(MaxT + 1), s \in Signers, a \in BOOLEAN, sh \in Shapes} \
+           {[et |-> e, signer |-> None, altered |-> TRUE, shape |-> sh] : e \in 1..(MaxT + 1), sh \in Shapes}
 
-Init == st = [hist |-> <<>>, c |-> [et |-> 0, signer |-> None, altered |-> FALSE], done |-> FALSE]
+Init == st = [hist |-> <<>>, c |-> [et |-> 0, signer |-> None, altered |-> FALSE, shape |-> "ops"], done |-> FALSE]
 Next ==
   /\ ~st.done
   /\ \/ /\ Len(st.hist) < MaxV
